@@ -114,7 +114,7 @@ func c03Witnesses(c *run.Ctx) {
 
 func checkC03(c *run.Ctx) {
 	c03Witnesses(c)
-	n := c.N(4000, 120000)
+	n := c.N(8000, 250000)
 	c.Parallel("doc", n, func(i int, r *rand.Rand) {
 		d, err := gen.Pipeline(r, c03Opts(i, r))
 		if err != nil {
